@@ -44,6 +44,9 @@ pub struct Case {
     /// receiver with object_receive_once = false
     #[serde(default)]
     pub receive_twice: bool,
+    /// how EXT_TIME carries the SCT (fdtxml::SCT_FORM): 0 High+Low, 1 High only, 2 High+Low+ERT, 3 High+SLC
+    #[serde(default)]
+    pub sct_form: u8,
 }
 
 const S0: u64 = EPOCH_2027 + 86_400; // sender time when the (last packet of the) FDT is sent
@@ -121,6 +124,13 @@ fn obj_sender_time(c: &Case, g: i64) -> i64 {
 }
 
 pub fn run_case(c: &Case) -> Outcome {
+    SCT_FORM.with(|f| f.set(c.sct_form));
+    let o = run_case_inner(c);
+    SCT_FORM.with(|f| f.set(0));
+    o
+}
+
+fn run_case_inner(c: &Case) -> Outcome {
     let e_ntp = unix_to_ntp_secs((S0 as i64 - c.sct_minus_expires) as u64);
     let content_a = obj_bytes(13, 1);
     let content_b = obj_bytes(11, 2);
@@ -344,17 +354,22 @@ pub fn run(thorough: bool) -> i32 {
                                 continue;
                             }
                             for (multi, spread) in [(false, 0i64), (true, 1), (true, 40)] {
-                                cases.push(Case { sct_minus_expires: d, sct_present, offset, check, timing, obj_est_minus_expires: g, multi, spread, second_session: false, far_expires: false, repeat_fdt: false, receive_twice: false });
+                                cases.push(Case { sct_minus_expires: d, sct_present, offset, check, timing, obj_est_minus_expires: g, multi, spread, second_session: false, far_expires: false, repeat_fdt: false, receive_twice: false, sct_form: 0 });
+                                if sct_present && spread <= 1 {
+                                    for sct_form in 1..=3u8 {
+                                        cases.push(Case { sct_minus_expires: d, sct_present, offset, check, timing, obj_est_minus_expires: g, multi, spread, second_session: false, far_expires: false, repeat_fdt: false, receive_twice: false, sct_form });
+                                    }
+                                }
                                 if !multi && matches!(timing, 0 | 3) {
                                     for receive_twice in [false, true] {
-                                        cases.push(Case { sct_minus_expires: d, sct_present, offset, check, timing, obj_est_minus_expires: g, multi, spread, second_session: false, far_expires: false, repeat_fdt: true, receive_twice });
+                                        cases.push(Case { sct_minus_expires: d, sct_present, offset, check, timing, obj_est_minus_expires: g, multi, spread, second_session: false, far_expires: false, repeat_fdt: true, receive_twice, sct_form: 0 });
                                     }
                                 }
                                 if !check && !multi && timing <= 2 {
-                                    cases.push(Case { sct_minus_expires: d, sct_present, offset, check, timing, obj_est_minus_expires: g, multi, spread, second_session: false, far_expires: true, repeat_fdt: false, receive_twice: false });
+                                    cases.push(Case { sct_minus_expires: d, sct_present, offset, check, timing, obj_est_minus_expires: g, multi, spread, second_session: false, far_expires: true, repeat_fdt: false, receive_twice: false, sct_form: 0 });
                                 }
                                 if !multi {
-                                    cases.push(Case { sct_minus_expires: d, sct_present, offset, check, timing, obj_est_minus_expires: g, multi, spread, second_session: true, far_expires: false, repeat_fdt: false, receive_twice: timing == 4 });
+                                    cases.push(Case { sct_minus_expires: d, sct_present, offset, check, timing, obj_est_minus_expires: g, multi, spread, second_session: true, far_expires: false, repeat_fdt: false, receive_twice: timing == 4, sct_form: 0 });
                                 }
                             }
                         }
